@@ -1115,7 +1115,7 @@ class World:
 
         for attr in ('send_start_process', 'send_stop_process', 'send_restart', 'send_shutdown',
                      'send_restart_all', 'send_shutdown_all', 'send_check_instance', 'send_state_event',
-                     'send_process_added_event'):
+                     'send_process_added_event', 'send_process_removed_event'):
             wrap(rpc_handler, attr, attr)
         wrap(sv.state_modes, 'update_instance_state', 'instance_state')
         wrap(sv.listener, 'force_process_state', 'force_process_state')
